@@ -100,6 +100,14 @@ CLAIMS.update({
    ref="DESIGN.md section 4 C08, section 3 E4"),
 })
 
+CLAIMS.update({
+ "C18": dict(
+   technique="binding-table extraction by dataflow over clang AST (string literal -> get_string_value -> optional -> conversion -> field) compared with frozen reference tables; consumer (who-reads-which-field) table",
+   text="Decides for all 31 XML tags: the tag is presence-tested (throwing) before use, converted with the right function, stored in the field of that name, lower-cased/INF-mapped exactly for the two documented tags, and every sign validation tests the field just assigned with the documented comparison; cell and face types are appended in document order; every parameter field is consumed at the site the frozen consumer table names (time step -> integrator and growth, duration -> run loop, sampling period -> save_mesh, edge length -> refiner/divider/contact grid/initial triangulation, swap flag -> refiner, biomechanical fields -> the force routines of the matching kind; repulsive/adhesive contact blocks read repulsion/adherence strength).",
+   note="Reference tables are frozen in the checker from doc/parameter_file_doc.md and the struct definitions; rows added to the reader are tolerated. std::stod's numeric parsing of arbitrary magnitudes is not decided.",
+   ref="DESIGN.md section 4 C18, section 3 E5"),
+})
+
 NA_DEFAULT = "checker not finished yet (see DESIGN.md section 4 for the planned clauses)"
 NA = {}
 
